@@ -672,7 +672,7 @@ pub fn main(args: &[String]) {
                 let tname = picked.iter().rev().find(|b| b.starts_with('t')).map(|b| b[..2].to_string());
                 for fz in forced {
                     let fz = if fz == "t" { match &tname { Some(t) => t.clone(), None => continue } } else { fz.to_string() };
-                    for shape in 0..8 {
+                    for shape in 0..9 {
                         let body = match shape {
                             0 => format!("if true then x else ((z : {fz}) => z) x"),
                             // the branches disagree unless the hole's solution is (mis)read as a ground type
@@ -682,6 +682,8 @@ pub fn main(args: &[String]) {
                             // the unsolved hole is captured below a binder inside a definition, solved by a sibling, then read back
                             6 => format!("f = (y : int) => x; g = ((z : {fz}) => z) x; f 3"),
                             7 => format!("f = (y : int) => (y2 : bool) => x; g = ((z : {fz}) => z) x; h = f 3; h true"),
+                            // the first branch solves the hole and fixes the result type; the second reads the solved hole back
+                            8 => format!("if false then ((z : {fz}) => 3) x else x"),
                             1 => format!("((z : {fz}) => (w : a) => z) x x"),
                             _ => format!("((k : {fz} -> {fz}) => k x) ((z : {fz}) => x)"),
                         };
@@ -689,9 +691,13 @@ pub fn main(args: &[String]) {
                         all.push(format!("(a : type) => x => (b : type) => {bs}{body}"));
                         // applied, and the result used at a ground type: if the result's type is misread the program runs into a
                         // value of the wrong kind
-                        if !bs.contains("=>") && (shape == 0 || shape == 3 || shape == 6) {
-                            all.push(format!("((a : type) => (b : type) => x => {bs}{body}) bool int true + 1"));
-                            all.push(format!("if ((a : type) => x => (b : type) => {bs}{body}) int 3 bool then 1 else 2"));
+                        if shape == 0 || shape == 3 || shape == 6 || shape == 8 {
+                            // arguments for the further parameters (a := bool, b := int in the first form; a := int, b := bool in the second)
+                            let args = |aval: &str, bval: &str| -> String {
+                                picked.iter().filter(|b| b.contains("=>")).map(|b| if b.contains(": a)") { format!(" {aval}") } else if b.contains(": b)") { format!(" {bval}") } else { " 5".to_string() }).collect()
+                            };
+                            all.push(format!("((a : type) => (b : type) => x => {bs}{body}) bool int true{} + 1", args("false", "7")));
+                            all.push(format!("if ((a : type) => x => (b : type) => {bs}{body}) int 3 bool{} then 1 else 2", args("4", "true")));
                         }
                     }
                 }
